@@ -55,7 +55,7 @@ def method_raises(name, call, recv):
             return [('OSError', E3)]
         # Connection.send: BrokenPipeError when the peer is gone (EPIPE on the socket pair), pickling errors
         return [('BrokenPipeError', E3)] + ([] if _const_payload(call) else [('Exception', E3P)])
-    if name in ('sendall', 'sendmsg', 'sendto', 'sendfile', 'connect', 'accept', 'bind', 'listen', 'shutdown', 'getpeername', 'getsockname', 'create_connection'):
+    if name in ('sendall', 'sendmsg', 'sendto', 'sendfile', 'connect', 'accept', 'bind', 'listen', 'shutdown', 'getpeername', 'getsockname', 'create_connection', 'setsockopt', 'getsockopt', 'ioctl'):
         return [('OSError', E3)]
     if name == 'put':
         # PipeEndpoint.put -> Connection.send ; queue.Queue.put never raises (unbounded)
